@@ -171,7 +171,8 @@ def declare(job):
                 scratch2 = [erd]
         return {'inputs': [cfg['query_path'], cfg['precomputed_stats']['path'], cfg['query_markers']['serialized_lookup']],
                 'outputs': outs, 'scratch': scratch, 'scratch2': scratch2, 'query': cfg['query_path'],
-                'obsm': cfg.get('obsm_key') is not None, 'strict': True}
+                # storing in the query file is requested by a non-empty obsm_key; None AND '' request nothing
+                'obsm': bool(cfg.get('obsm_key')), 'strict': True}
     if st == 'assign':
         # the type-assignment stage called directly: results_output_path is where it buffers the per-chunk
         # results, tmp_dir (or, without one, the system temporary directory) where the query is rewritten
@@ -294,7 +295,7 @@ def check_run(ctx, rec, history, baseline=None, region_only=False, expect_ok=Non
         d = dict(desc, **{'class': 'c19-run-outcome-unexpected', 'traceback': res.get('traceback')})
         ctx.violation(f'{history}/{label}: run was expected to {"succeed" if expect_ok else "fail"} but '
                       f'{"succeeded" if res["ok"] else "failed: " + str(res["error"])}', d)
-        return None
+        # the run is judged all the same: whatever its outcome it must not have touched its inputs
     before, at_ret, after = res['before'], res['at_return'], res['after']
     scratch = decl['scratch']
     # every directory the run was given for temporary data
@@ -502,7 +503,7 @@ def with_process_dirs(job, sb):
 
 def mapping_job(label, sb, src, tag, *, same_names=False, log=True, obsm_key=None, fault=None,
                 n_processors=2, chunk_size=3, seed=5, break_input=None, private_query=False, pre=None,
-                no_scratch=None):
+                no_scratch=None, query_of=None):
     """A mapping job in sandbox `sb`; inputs are copies of src/* placed in sb/in once."""
     ind = sb / 'in'
     for fn in ('stats.h5', 'markers.json', 'query.h5ad'):
@@ -512,6 +513,8 @@ def mapping_job(label, sb, src, tag, *, same_names=False, log=True, obsm_key=Non
     if private_query:
         q = ind / f'query_{tag}.h5ad'
         shutil.copy(src / 'query.h5ad', q)
+    if query_of is not None:
+        q = ind / f'query_{query_of}.h5ad'          # the private query an earlier job of this history wrote into
     markers = ind / 'markers.json'
     if break_input == 'markers':
         markers = ind / f'markers_broken_{tag}.json'
@@ -579,6 +582,11 @@ def history_mapping(ctx, k):
         (mapping_job('after-worker-failure', shared, src, 'r3', **kw), 'success-after-failure', True),
         (mapping_job('stale-planted', shared, src, 'r1', pre=plant, **kw, log=False), 'stale-files-planted', True),
         (mapping_job('obsm', shared, src, 'o1', obsm_key='ctm_verif', private_query=True, **kw), 'obsm-key-set', True),
+        # the boundary value of obsm_key that requests nothing ('' besides None), on the query all runs share:
+        # before and after a run that does store (private copy), so that an obsm group exists or not
+        (mapping_job('obsm-key-empty', shared, src, 'e1', obsm_key='', **kw), 'obsm-key-empty-string', True),
+        (mapping_job('obsm-then-empty-key', shared, src, 'o1', obsm_key='', query_of='o1', log=False, **kw),
+         'obsm-key-empty-string-after-obsm-run', True),
         (mapping_job('log-exists', shared, src, 'r4', pre={'write': {log_r4: STALE_LOG}}, **kw), 'log-file-of-earlier-run', True),
     ]
     jobs[-1][0]['stale_log_text'] = STALE_LOG.strip()
@@ -589,6 +597,9 @@ def history_mapping(ctx, k):
     H = 'no-scratch-dir:'
     jobs += [
         (mapping_job('noscratch-fresh', fresh_ns, src, 'n0', no_scratch='out', **kw), H + 'first-in-fresh-dirs', True),
+        # (no draw from the PRNG here: the other jobs of the history keep the parameters they had before this one existed)
+        (mapping_job('noscratch-obsm-key-empty', fresh_ns, src, 'n0e', no_scratch=['out', 'none', 'tmp'][k % 3],
+                     obsm_key='', **kw), H + 'obsm-key-empty-string', True),
         (mapping_job('noscratch-buffer-in-output-dir', shared, src, 'n1', no_scratch='out', pre=plant_sys, **kw),
          H + 'buffer-in-output-dir', True),
         (mapping_job('noscratch-again-same-names', shared, src, 'n1', no_scratch='out', log=False, **kw),
@@ -966,6 +977,9 @@ def run(ctx):
         'mapping runs are made with a scratch directory and without one (tmp_dir=None: the system temporary directory is '
         'then the scratch root of the model); concurrent runs use distinct output file names and a private copy of the '
         'query when obsm_key is set',
+        "storing results in the query file is requested by a non-empty obsm_key: None and '' both request nothing "
+        '(the run must succeed, the query file must keep its digest and the acceptor is told obsm=0, so any write to '
+        'the query file is refused)',
         'the three preparatory stages (statistics, reference markers, query markers) are NOT observed in the system '
         'temporary directory: they use multiprocessing.Manager, whose pymp-* directory there lives until the interpreter exits',
         'the model has ONE scratch root: a run that was given a second directory for temporary data (extended_result_dir of '
